@@ -681,6 +681,11 @@ func rangeAtD(v ssa.Value, b *ssa.BasicBlock, ptrBits, depth int) ival {
 				if maxLen := int64(1) << 48; r.hi > maxLen {
 					r.hi = maxLen
 				}
+				if bi.Name() == "len" && len(x.Call.Args) == 1 {
+					if lr := lenRangeOf(x.Call.Args[0], ptrBits, 0); lr.hi != posInf {
+						r.meet(ival{lo: lr.lo, hi: lr.hi})
+					}
+				}
 			}
 		case *ssa.UnOp:
 			// an element of an integer slice whose contents are bounded structurally
@@ -700,6 +705,13 @@ func rangeAtD(v ssa.Value, b *ssa.BasicBlock, ptrBits, depth int) ival {
 					} else if len(f.Blocks) > 0 && depth < 3 {
 						if sr, ok := returnRange(f, x.Index, ptrBits, depth); ok {
 							r.meet(sr)
+						}
+						// where the call's error result is known to be nil, only the
+						// returns that can carry a nil error count
+						if ei := errResultIndex(f); ei >= 0 && ei != x.Index && errNilAt(cl, ei, b) {
+							if sr, ok := returnRangeOK(f, x.Index, ei, ptrBits, depth); ok {
+								r.meet(sr)
+							}
 						}
 					}
 				}
@@ -1345,4 +1357,189 @@ func tableRowLenMax(row ssa.Value) (int64, bool) {
 		}
 	}
 	return maxLen, true
+}
+
+// errResultIndex: the index of the last result of f when it has type error.
+func errResultIndex(f *ssa.Function) int {
+	res := f.Signature.Results()
+	if res.Len() < 2 {
+		return -1
+	}
+	last := res.At(res.Len() - 1).Type()
+	if n, ok := last.(*types.Named); ok && n.Obj().Pkg() == nil && n.Obj().Name() == "error" {
+		return res.Len() - 1
+	}
+	return -1
+}
+
+// errNilAt: every path to block b has taken the branch on which result ei of
+// the call is nil.
+func errNilAt(call *ssa.Call, ei int, b *ssa.BasicBlock) bool {
+	if b == nil {
+		return false
+	}
+	for _, g := range guardEdges(b) {
+		bo, ok := g.If.Cond.(*ssa.BinOp)
+		if !ok || (bo.Op != token.EQL && bo.Op != token.NEQ) {
+			continue
+		}
+		var tested ssa.Value
+		if k, ok := bo.Y.(*ssa.Const); ok && k.IsNil() {
+			tested = bo.X
+		} else if k, ok := bo.X.(*ssa.Const); ok && k.IsNil() {
+			tested = bo.Y
+		} else {
+			continue
+		}
+		ex, ok := tested.(*ssa.Extract)
+		if !ok || ex.Tuple != ssa.Value(call) || ex.Index != ei {
+			continue
+		}
+		if (bo.Op == token.EQL) == g.Truth {
+			return true
+		}
+	}
+	return false
+}
+
+// definitelyNonNilErr: the value is a non-nil error on every execution.
+func definitelyNonNilErr(v ssa.Value, depth int) bool {
+	if depth > 4 {
+		return false
+	}
+	switch x := v.(type) {
+	case *ssa.MakeInterface:
+		return true
+	case *ssa.Call:
+		f := x.Call.StaticCallee()
+		if f == nil {
+			return false
+		}
+		if f.Pkg != nil {
+			pp := f.Pkg.Pkg.Path()
+			if (pp == "errors" && f.Name() == "New") || (pp == "fmt" && f.Name() == "Errorf") {
+				return true
+			}
+		}
+		if len(f.Blocks) > 0 && f.Signature.Results().Len() == 1 {
+			n := 0
+			for _, b := range f.Blocks {
+				if ret, ok := b.Instrs[len(b.Instrs)-1].(*ssa.Return); ok {
+					n++
+					if !definitelyNonNilErr(ret.Results[0], depth+1) {
+						return false
+					}
+				}
+			}
+			return n > 0
+		}
+	case *ssa.Phi:
+		for _, e := range x.Edges {
+			if e != v && !definitelyNonNilErr(e, depth+1) {
+				return false
+			}
+		}
+		return len(x.Edges) > 0
+	case *ssa.UnOp:
+		if g, ok := x.X.(*ssa.Global); ok && x.Op == token.MUL {
+			return globalNeverNilErr(g)
+		}
+	}
+	return false
+}
+
+var globalNonNilMemo = map[*ssa.Global]int{}
+
+// globalNeverNilErr: the package-level variable is assigned only by its
+// package initialiser, with a definitely non-nil error.
+func globalNeverNilErr(g *ssa.Global) bool {
+	if r, ok := globalNonNilMemo[g]; ok {
+		return r == 1
+	}
+	globalNonNilMemo[g] = 2
+	if gL == nil || g.Pkg == nil {
+		return false
+	}
+	stores := 0
+	for _, fn := range gL.RepoFuncs(nil) {
+		bad := false
+		eachInstr(fn, func(ins ssa.Instruction) {
+			var ops []*ssa.Value
+			for _, op := range ins.Operands(ops) {
+				if op == nil || *op != ssa.Value(g) {
+					continue
+				}
+				switch u := ins.(type) {
+				case *ssa.UnOp:
+					if u.Op != token.MUL {
+						bad = true
+					}
+				case *ssa.Store:
+					if u.Addr != ssa.Value(g) || !(fn.Synthetic != "" && fn.Name() == "init") || !definitelyNonNilErr(u.Val, 1) {
+						bad = true
+					} else {
+						stores++
+					}
+				default:
+					bad = true // address escapes
+				}
+			}
+		})
+		if bad {
+			return false
+		}
+	}
+	if stores == 0 {
+		// the initialiser lives in the package's synthetic init, which RepoFuncs may not list
+		if init := g.Pkg.Func("init"); init != nil {
+			eachInstr(init, func(ins ssa.Instruction) {
+				if st, ok := ins.(*ssa.Store); ok && st.Addr == ssa.Value(g) && definitelyNonNilErr(st.Val, 1) {
+					stores++
+				}
+			})
+		}
+	}
+	if stores > 0 {
+		globalNonNilMemo[g] = 1
+		return true
+	}
+	return false
+}
+
+// returnRangeOK: like returnRange, over the returns whose error result (index
+// ei) is not a definitely non-nil error.
+func returnRangeOK(fn *ssa.Function, idx, ei, ptrBits, depth int) (ival, bool) {
+	key := fmt.Sprintf("%p/%d/%d/ok%d", fn, idx, ptrBits, ei)
+	if r, ok := returnRangeMemo[key]; ok {
+		return r, r.lo != negInf || r.hi != posInf
+	}
+	returnRangeMemo[key] = fullRange() // recursion guard
+	j := ival{lo: posInf, hi: negInf}
+	n := 0
+	for _, b := range fn.Blocks {
+		ret, ok := b.Instrs[len(b.Instrs)-1].(*ssa.Return)
+		if !ok || idx >= len(ret.Results) || ei >= len(ret.Results) {
+			continue
+		}
+		if definitelyNonNilErr(ret.Results[ei], 0) {
+			continue
+		}
+		if _, _, isInt := isIntegerType(ret.Results[idx].Type()); !isInt {
+			return fullRange(), false
+		}
+		n++
+		rr := rangeAtD(ret.Results[idx], b, ptrBits, depth+2)
+		if rr.lo < j.lo {
+			j.lo = rr.lo
+		}
+		if rr.hi > j.hi {
+			j.hi = rr.hi
+		}
+	}
+	if n == 0 || j.lo > j.hi {
+		return fullRange(), false
+	}
+	res := ival{lo: j.lo, hi: j.hi}
+	returnRangeMemo[key] = res
+	return res, res.lo != negInf || res.hi != posInf
 }
